@@ -94,6 +94,7 @@ func runC08(w *World, r *Report) {
 	c08Tables(w, r)
 	c08KindSort(w, r)
 	c08Barrier(w, r)
+	c08ContentWritten(w, r)
 }
 
 func c08Partition(w *World, r *Report) {
@@ -762,4 +763,76 @@ func c08Barrier(w *World, r *Report) {
 		}
 	}
 	r.Check(okRecv, "C08/BARRIER", "collector-count", w.Pos(pf.Pos()), "the collector loops over len(infos) results", "the collector does not receive one result per resource")
+}
+
+// c08ContentWritten: while the release manifest is assembled, every sorted manifest's content is
+// written to the buffer (or file) in its iteration; the only edge on which a document's content may be
+// replaced by a placeholder is the one where the caller asked to hide secrets.
+func c08ContentWritten(w *World, r *Report) {
+	r.Rule("C08/CONTENT-WRITTEN", "in the loop that assembles the manifest from the sorted documents every iteration writes the document's content, except on the edge where the hide-secret option is true", 1)
+	fn := w.Fn("pkg/action", "Configuration.renderResources")
+	if fn == nil {
+		r.Unk("C08/CONTENT-WRITTEN", "anchor", "-", "renderResources not found")
+		return
+	}
+	r.Fn(FuncName(fn))
+	g := FullGraph(fn)
+	var writes []ssa.Instruction
+	for _, c := range callInstrs(fn) {
+		uses := false
+		for _, a := range c.Common().Args {
+			backSlice(a, func(v ssa.Value) bool {
+				if ld, ok := v.(*ssa.UnOp); ok && ld.Op == token.MUL {
+					if _, t, f := fieldNameOf(ld.X); t == "Manifest" && f == "Content" {
+						uses = true
+					}
+				}
+				_, isCall := v.(*ssa.Call)
+				return uses || isCall
+			})
+		}
+		if uses {
+			writes = append(writes, c)
+		}
+	}
+	if len(writes) == 0 {
+		r.Bad("C08/CONTENT-WRITTEN", "loop", w.Pos(fn.Pos()), "no statement writes the documents' content")
+		return
+	}
+	scc := sccOf(fn)
+	comp := scc[writes[0].Block()]
+	var hdr *ssa.BasicBlock
+	for _, b := range comp {
+		for _, p := range b.Preds {
+			in := false
+			for _, x := range comp {
+				if x == p {
+					in = true
+				}
+			}
+			if !in {
+				hdr = b
+			}
+		}
+	}
+	if hdr == nil || len(comp) < 2 || len(hdr.Succs) != 2 {
+		r.Unk("C08/CONTENT-WRITTEN", "loop", w.InstrPos(writes[0]), "the content is not written inside a loop over the documents")
+		return
+	}
+	var hide []Edge
+	for _, p := range fn.Params {
+		if strings.Contains(strings.ToLower(p.Name()), "hidesecret") {
+			for _, e := range condEdges(p) {
+				if e.truth {
+					hide = append(hide, e.Edge)
+				}
+			}
+		}
+	}
+	ex, path := g.PathExists(IPos{hdr.Succs[0], -1}, IPos{hdr, 0}, avoidInstrs(writes...).withEdges(hide...))
+	where := ""
+	if ex && len(path) > 1 {
+		where = w.InstrPos(path[len(path)-2].Instrs[0])
+	}
+	r.Check(!ex, "C08/CONTENT-WRITTEN", "loop", w.InstrPos(writes[0]), "every iteration writes its document unless secrets are to be hidden", "an iteration can end without writing the document's content although hide-secret is off (via "+where+"): the document is lost from the release manifest")
 }
